@@ -63,7 +63,10 @@ func main() {
 			fmt.Println("ERR", err)
 			os.Exit(1)
 		}
-		fmt.Printf("flushes=%d rotates=%d ingested=%d\n", o.Flushes, o.Rotates, o.Ingested)
+		fmt.Printf("flushes=%d rotates=%d ingested=%d drained=%d\n", o.Flushes, o.Rotates, o.Ingested, o.Drained)
+		for _, p := range o.Pqs {
+			fmt.Printf("PQS %-30s %s %+v\n", p.Query, p.Pqid, p.Segs)
+		}
 		for i, q := range sc.Queries {
 			x := o.Obs[i]
 			fmt.Printf("%-40s ids=%v groups=%v err=%q dup=%v raw=%d pqs=%d\n", q, x.Ids, x.Groups, x.Err, x.Dup, x.Raw, x.Pqs)
